@@ -107,9 +107,11 @@ func C02(r *Run) *core.Report {
 		}
 	}
 	rep.MinCount("C02.U1", "map operations on evaluated paths", nOps, 150)
-	// U4: premises for 'a completed write is never lost to a resize': the protocol shape of both maps
-	n2 := borrow(rep, mapProtocol(r, "C03", 0), "C02.U4", "C03.P3", "C03.P4", "C03.P5", "C03.P6", "C03.P7", "C03.P10", "C03.P11", "C03.P12", "C03.P14")
-	n2 += borrow(rep, mapProtocol(r, "C04", 1), "C02.U4", "C04.P3", "C04.P4", "C04.P5", "C04.P6", "C04.P7", "C04.P10", "C04.P11", "C04.P12", "C04.P14")
+	// U4: premises for 'every cache call takes effect atomically on the underlying map': the whole protocol of both maps
+	// (the reader's snapshot, immutable entries, writer validation, resize order, copy under lock, Clear, packed words,
+	// the operation contract of the compute core)
+	n2 := borrow(rep, mapProtocol(r, "C03", 0), "C02.U4", "C03.P")
+	n2 += borrow(rep, mapProtocol(r, "C04", 1), "C02.U4", "C04.P")
 	rep.MinCount("C02.U4", "premise obligations (writer validation, resize order, copy under lock, Clear)", n2, 30)
 	return rep
 }
